@@ -785,6 +785,7 @@ type postState struct {
 	done    map[string]bool
 	fresh   map[string]string // comp -> Cf
 	seen    map[string]bool   // comp|ref already recorded
+	lifted  map[string]string // comp -> pointwise-defined post-call version (reads under quantifiers)
 	mark    int               // number of definitions when the call started
 	pure    bool
 	noalloc bool
@@ -864,8 +865,20 @@ func (p *postState) read(comp, srt, ref string) string {
 	cur := r.heap.get(p.st, comp, srt)
 	val := ite(refLt(ref, p.pre.alloc), sel(cur, ref), sel(cf, ref))
 	if mentionsBound(ref) {
-		// inside a quantifier: the same function of the reference, but nothing can be named or recorded
-		return val
+		// inside a quantifier nothing can be recorded per reference: the post-call version of the whole
+		// component is defined pointwise instead (old objects keep the base version, objects allocated by
+		// the callee take the unknown one), once per call and component
+		if p.lifted == nil {
+			p.lifted = map[string]string{}
+		}
+		nw, ok := p.lifted[comp]
+		if !ok {
+			nw = r.ctx.fresh(comp+".post", srt)
+			r.assume(p.st, fmt.Sprintf("(forall ((r!p %s)) (! (= (select %s r!p) (ite (< r!p %s) (select %s r!p) (select %s r!p))) :pattern ((select %s r!p))))", sRef, nw, p.pre.alloc, cur, cf, nw))
+			p.lifted[comp] = nw
+			r.heap.set(p.st, comp, srt, nw, "$fresh")
+		}
+		return sel(nw, ref)
 	}
 	key := comp + "|" + ref
 	if !p.seen[key] {
